@@ -57,6 +57,10 @@ type Pkg struct {
 	Info   *types.Info
 	Origin string // for S3: mutator description
 	Focus  string // when set, only this file is analysed (the other files are context)
+
+	DefaultOnly bool        // S4: run the default parameter variant of every checker only
+	BaseKey     string      // S4 layout variants: "<base package>/<file>" whose diagnostics must coincide
+	Ins         []insertion // S4 layout variants: the inserted blanks (for mapping offsets back)
 }
 
 var Sizes = types.SizesFor("gc", runtime.GOARCH)
